@@ -693,7 +693,7 @@ PROPERTIES["C06"] = {
          "thorough": ["fn=%s;d=%d" % (f, d) for f in _FN_BASE + _FN_ENET for d in (1, 2, 3)] + ["fn=%s;d=%d;cvx=0" % (f, d) for f in _FN_SMOOTH_HD for d in (4, 8, 12, 16, 32)] + ["fn=maxq;d=8;cvx=0", "fn=chained_lq;d=8;cvx=0"],
          "budget": {"quick": {"deadline_s": 45, "max_paths": 3000, "query_s": 8}, "thorough": {"deadline_s": 300, "max_paths": 50000, "query_s": 20}},
          "encoded": ["nano::function_t::vgrad", "function_<id>_t::do_vgrad for every registered id", "nano::function_t::{convex, strong_convexity, make}"]},
-        {"engine": "sre", "harness": "C06_surrogate", "sources": ["C06_surrogate.cpp"],
+        {"engine": "sre", "harness": "C06_surrogate", "sources": ["C06_surrogate.cpp"], "concrete_strict": True,
          "quick": ["p=1", "p=2", "p=3", "p=4", "p=1;fit=1;n=2", "p=2;fit=1;n=2", "p=3;fit=1;n=2"],
          "thorough": ["p=%d" % k for k in (1, 2, 3, 4, 5, 6)] + ["p=%d;fit=1;n=%d" % (k, n) for k in (1, 2, 3, 4) for n in (1, 2, 3)],
          "budget": {"quick": {"deadline_s": 45, "max_paths": 2000, "query_s": 8}, "thorough": {"deadline_s": 300, "max_paths": 20000, "query_s": 20}},
